@@ -442,3 +442,6 @@ def run(rep, program: Program, tier: str) -> None:
     rep.isolate(rule_r3, rep, program)
     rep.isolate(rule_r4, rep, program)
     rep.isolate(rule_r5, rep, program)
+    from . import samplersim
+
+    rep.isolate(samplersim.rule, rep, program, tier, PROP, "R6")
